@@ -1,5 +1,6 @@
 import SJ.Proofs.Tables
 import SJ.Proofs.Facts
+import SJ.Proofs.SerdeRT
 /-
 C11 — Serialize/Deserialize round-trips every tape in every mode.
 -/
@@ -21,5 +22,33 @@ theorem C11_same_groups :
 /-- format constants -/
 theorem C11_format : cserializedVersion = 3 ∧ cblockTypeUncompressed = 0 ∧ cblockTypeS2 = 1 ∧ cblockTypeZstd = 2 ∧
     ctagFloatWithFlag = 101 ∧ cstringSize = 2 ^ cstringBits := by decide
+
+open SJ.Layout in
+/-- **Round trip, every tape.** For every tape that denotes a document `d` (C17's format, gaps left by edits and
+    deletions included), every hash function (so: whatever the string-dedup table does) and every prior content of
+    the destination tape, `Serialize` succeeds and rebuilding from its sections yields a tape that denotes the same
+    `d` — same nesting, same number kinds and bits (float flags included), byte-equal strings — of the same size.
+    The size premises are the format's own limits (56-bit payloads, the 2^55 string-buffer flag). -/
+theorem C11_roundtrip (pj : PJ) (d : List JVal) (hash : Bytes → Nat) (hwf : WF pj d) (hsz : pj.tape.size < 2^56)
+    (hb : pj.tape.size * max pj.msg.size pj.strings.size < 2^55) :
+    ∃ sec, serialize pj hash = .ok sec ∧ sec.tapeSize = pj.tape.size ∧
+      ∀ init : Array UInt64, init.size = sec.tapeSize →
+        ∃ pj', deserializeSections sec init = .ok pj' ∧ WF pj' d ∧ pj'.tape.size = pj.tape.size ∧
+          pj'.strings = #[] ∧ pj'.msg = sec.msg :=
+  SerdeRT.roundtrip_of_bound pj d hash hwf hsz hb
+
+/-- **String de-duplication is sound for any table.** Whatever the hash table holds (stale entries of an earlier
+    `Serialize`, collisions, wrapped offsets), the offset returned for a string points at exactly that string in
+    the (append-only) string buffer. -/
+theorem C11_dedup_sound (hash : Bytes → Nat) (s : SerState) (sb : Bytes) :
+    let r := indexString hash s sb
+    SerdeRT.Ext s.stringBuf r.1.stringBuf ∧
+    ∃ o : Nat, r.2 = UInt64.ofNat o ∧ o + sb.size ≤ r.1.stringBuf.size ∧ r.1.stringBuf.extract o (o + sb.size) = sb :=
+  SerdeRT.C11_dedup_sound hash s sb
+
+/-- The serialized string buffer never exceeds (entries × largest source buffer): the premise above is about the input only. -/
+theorem C11_msg_bound (pj : PJ) (hash : Bytes → Nat) (M : Nat) (h1 : pj.msg.size ≤ M) (h2 : pj.strings.size ≤ M)
+    (sec : Sections) (h : serialize pj hash = .ok sec) : sec.msg.size ≤ pj.tape.size * M :=
+  SerdeRT.serialize_msg_bound pj hash M h1 h2 sec h
 
 end SJ.Properties.C11
